@@ -25,7 +25,7 @@ Comparison rule (compare: "tol").  s = ||A||_2.
       Identity / Diagonal outputs exactly, Triangular outputs to 1e-9 (LAPACK solve against exact rationals);
       power iteration: the same number of steps whenever every evaluation of the test in the model has
       |err - tol| > 1e-6 tol + 1e-12 (determined decisions; rounding differs through BLAS summation orders), value
-      and vector to 1e-9 then.
+      (relative) and vector (entrywise, unit vectors; POWER_VEC_TOL, derived at its definition) to 1e-9 then.
   code = spec:  the driver's exact verdict (selection: the selected positions are an extreme-magnitude selection of
       the magnitude ranks; structural: eigenpairs of den, orthonormality, rank, extreme magnitudes) must agree with the
       oracle's verdict on the real output.
@@ -74,18 +74,32 @@ eig, eigmax, eigmin = E.eig, E.eigmax, E.eigmin
 MODULE = "ColaVerif.Properties.C10"
 DRIVER = "DriverC10.lean"
 
-# Genuine defects found by this check and not (yet) listed in /verif/known_findings.json.
-# Four earlier ones (selection by position, Triangular rule on lower triangular data, complex Triangular, unconjugated
-# Rayleigh quotient) are FIXED in /repo (commits bb973bc, d3bb5ef, 3dd8195 and the select_by_magnitude commit).
-# The finding `lobpcg-drops-smallest` (eig's LOBPCG rule only sees the n - 1 algebraically largest pairs lobpcg computes;
-# Lean: hypotheses enoughComputed / droppedNotWanted of C10_lobpcg_partial, witness C10_lobpcg_clause_needed) is RECORDED in
-# /verif/known_findings.json and matched through common.known_clauses / common.known_finding; nothing is provisional.
+# Findings of this property.  FIXED in /repo (known_findings.json `fixed:`): 9624153 selection by position instead of
+# magnitude, bb973bc Triangular rule on lower triangular data, d3bb5ef complex Triangular, 3dd8195 unconjugated Rayleigh
+# quotient, 1c54ca4 relative change against the signed eig.  RECORDED in /verif/known_findings.json (the only clause of
+# C10): `lobpcg-drops-smallest` -- eig's LOBPCG rule only sees the n - 1 algebraically largest pairs lobpcg computes
+# (Lean: hypotheses enoughComputed / droppedNotWanted of C10_lobpcg_partial, witness C10_lobpcg_clause_needed); it is read
+# through common.known_clauses and reported through common.known_finding.
+# Genuine defects found by this check and not yet decided by the main session would be listed here: none.
 PROVISIONAL_KNOWN = {}
 LOBPCG_TOL = 1e-4     # lobpcg works in single precision (float32 / complex64)
 
 RES_TOL = 1e-6
 MAX_VIOLATION_LINES = 5
 STEP_TOL = 1e-12     # one-step claims of power iteration: a few rounding errors of one product of size n <= 10
+# Returned VECTOR of power iteration, model (Lean, IEEE doubles, sequential sums) against the real run (numpy / BLAS sums),
+# compared entrywise on unit vectors when both made the same number of steps.  The two runs perform the same operations
+# in different summation orders, u = 2^-53 = 1.1e-16.  One step v -> A v / ||A v||, n <= 10: each entry of A v carries
+# <= n u (|A||v|)_i, the norm (n + 2) u, the division u, so two evaluations of one step differ by
+#     d <= 2 (n + 3) u sqrt(n) ||A|| / ||A v||  <=  2 * 13 * 1.1e-16 * 3.2 * cond(V)  ~  1e-13     (cond(V) <= ~10).
+# A perturbation of the iterate is mapped on by the step as (projected) A / ||A v||: in the eigenbasis it contracts by
+# |lam_2 / lam_1| <= 1/1.7 per step (generator), i.e. the differences do NOT add up over the <= 400 steps but sum to at
+# most d * cond(V) / (1 - 1/1.7) ~ 2.4e-12 in the Euclidean norm.  First-order worst case B ~ 2.4e-12; the tolerance keeps
+# a factor ~400 for the higher-order terms and for the first steps of a run whose start vector has a small dominant
+# component (||A v|| < |lam_1|, larger d):  1e-9 -- the same number as for the returned value.  (It was 1e-8 with a doc
+# text saying 1e-9; the MEASURED maximum is recorded as distributions.power.vector_maxdiff in the evidence: 5.5e-16 on
+# the quick stream of seed 0.)
+POWER_VEC_TOL = 1e-9
 
 
 class RecDense(Dense):
@@ -803,7 +817,8 @@ def run(ctx):
     outcomes = {"ok": 0, "modelled-defect": 0, "spec-fail": 0, "real-ne-model": 0, "model-error": 0, "inconsistent": 0}
     dist = {"streams": {}, "families": {}, "paths": {}, "algs": {}, "n": {}, "which": {}, "k_eq_n": 0, "clauses": {},
             "power": {"determined": 0, "undetermined": 0, "stopped_by_tol": 0, "stopped_by_cap": 0, "complex": 0,
-                      "values_compared": 0, "one_step_claims_checked": 0, "one_step_claims_at_cap": 0, "monotone_checked": 0},
+                      "values_compared": 0, "one_step_claims_checked": 0, "one_step_claims_at_cap": 0, "monotone_checked": 0,
+                      "vectors_compared": 0, "vector_maxdiff": 0.0},
             "eigmax_eigmin": 0, "positions_checked": 0, "contract_checked": {},
             "lobpcg": {"checked": 0, "dropped_pair_wanted": 0}, "structural_exact": 0, "verdict_by_rule": {}}
     sigs = set()
@@ -1011,8 +1026,11 @@ def run(ctx):
                     mism.append(("power-value", f"model {ev}, real {rv}"))
                 if "V" in real:
                     mv = np.array([dec_entry(e) for e in ans["v"]])
-                    if np.abs(mv - real["V"][:, 0]).max() > 1e-8:
-                        mism.append(("power-vector", f"max entry difference {np.abs(mv - real['V'][:, 0]).max():.3e}"))
+                    dvec = float(np.abs(mv - real["V"][:, 0]).max())
+                    dist["power"]["vectors_compared"] += 1
+                    dist["power"]["vector_maxdiff"] = max(dist["power"]["vector_maxdiff"], dvec)   # MEASURED, in the evidence
+                    if not dvec <= POWER_VEC_TOL:
+                        mism.append(("power-vector", f"max entry difference {dvec:.3e} > {POWER_VEC_TOL:g}"))
         return mism, determined, info
 
     def power_oracle(A, real, tol, max_iter, hermitian):
@@ -1150,7 +1168,8 @@ def run(ctx):
                 elif st == "structural":
                     sans = answers.get(c["id"], {"error": "no answer"})
                     if "error" not in sans and sans.get("code"):
-                        clauses |= set(sans["clauses"])
+                        if not sans.get("in_domain", True):
+                            mism.append(("generator-out-of-domain", "Triangular operator without triangular data"))
                         lean_ok = sans["spec"]["extreme_ok"]   # only the value is returned
                         mv = zval(sans["code"]["vals"][0]) if sans["code"]["vals"] else None
                         if mv is None or abs(mv - real["scalar"]) > 1e-9 * max(1.0, abs(mv)):
@@ -1213,7 +1232,9 @@ def run(ctx):
                             mism.append(("structural-vectors", f"max relative entry difference {dV:.3e}"))
                         if exact:
                             dist["structural_exact"] += 1
-                    clauses |= set(sans["clauses"])
+                    if not sans.get("in_domain", True):
+                        # hypothesis triangularData of C10_triangular: a fault of the generator, never a finding
+                        mism.append(("generator-out-of-domain", "Triangular operator without triangular data"))
                     sp = sans["spec"]
                     lean_fail = set()
                     if not sp["pairs_ok"]:
@@ -1230,8 +1251,7 @@ def run(ctx):
                     if (ofail - {"not-eigenvalues"}) != lean_fail and not mism:
                         mism.append(("spec-disagreement", f"driver (exact): {sorted(lean_fail)}, oracle (numpy): {sorted(ofail)}"))
                     detail = {"driver_spec": sp}
-                    # clauses that can explain the failures seen
-                    clauses = set()   # no modelled defect is left: every failure is a violation
+                    clauses = set()   # no modelled defect is left for the structural rules: every failure is a violation
             else:
                 # value stream, eig
                 if real["path"] == "power":
@@ -1354,8 +1374,18 @@ def run(ctx):
     common.write_evidence(ctx, gate, cov, assumptions=[
         "simple spectrum with distinct magnitudes except complex-conjugate pairs (input domain of the property)",
         "CONTRACT (assumed, not proved; observed on every computed spectrum by contract_check): LAPACK eig / eigh return "
-        "A P = P diag(lam) with n unit columns, linearly independent (eigh: unitary, ascending) -- structure DenseContract, "
-        "hypothesis of C10_dense_eig / C10_dense_spectrum / C10_dense_eigh and (for the projected matrix) of C10_arnoldi_path",
+        "A P = P diag(lam) with n unit columns (eigh: unitary, ascending) -- structure DenseContract, hypothesis of "
+        "C10_dense_eig / C10_dense_spectrum / C10_dense_eigh and (for the projected matrix) of C10_arnoldi_path / "
+        "C10_arnoldi_full; witnesses C10_dense_contract_witness, C10_dense_spectrum_witness, C10_arnoldi_full_witness",
+        "CONTRACT (assumed): LINEAR INDEPENDENCE of the eigenvectors xnp.eig (LAPACK geev) returns -- premise `independent : "
+        "IsUnit (colsM n n s.vecs)` of C10_dense_spectrum / C10_dense_op; geev delivers a full set of independent eigenvectors "
+        "only for a diagonalisable input (the generator's A = V diag(lam) V^-1 with distinct lam); observed as smin(P) >= 1e-8 "
+        "by contract_check; for xnp.eigh it is PROVED from unitarity (C10_dense_eigh); witnessed on a non-normal input with a "
+        "non-unitary P by C10_dense_spectrum_witness",
+        "Lanczos: C10_lanczos_path / _full / _caps_above_n claim extremeness among the computed RITZ values only; equality of "
+        "the Ritz values with the spectrum of A (C10_lanczos_spectrum, C10_lanczos_spectrum_of_grade) needs a run of n = dim "
+        "steps (grade n, C14_grade) and the CONTRACT `eigh_independent` (eigh returns an invertible -- for LAPACK unitary -- "
+        "eigenvector matrix of T; assumed)",
         "the Krylov theorems C10_arnoldi_path / C10_lanczos_path cite C15_eigs_partial / C14_lanczos_eigs: exact arithmetic, "
         "clauses noClip / stopExact (C15 findings) resp. an exhausted Krylov space, tol > 0 for Arnoldi (tol = 0 is exercised "
         "by the generator, outside the theorem)",
